@@ -20,7 +20,7 @@ func C02(r *core.Report) {
 		"R2 completion-order independence of both getBlock assemblers - every store made by the concurrently started entry / transaction fetchers into shared slices goes to a slot addressed by the fetcher's own loop index (or the slice is sorted afterwards), and a shared scalar is written only by the fetcher whose index equals a loop-invariant value; " +
 		"R3 the transactions of the answer are sorted by recorded position with a strict ascending comparator after the last append and before they are put in the response, and the position comes from the transaction node's GetPositionIndex; " +
 		"R4 blockhash is the hash of the last entry (written under index == len(entries)-1) and previousBlockhash is taken from the last entry of the parent block fetched from the same epoch under the same-epoch test; " +
-		"R5 payload bytes handed out do not alias pooled buffers (the C14.R5 rule, repo-wide). " +
+		"R5 payload bytes handed out do not alias pooled buffers (the C14.R5 rule, repo-wide); R6 in both getTransaction handlers the epoch handler is the one the signature search returned for the signature that is then fetched, and the answer's slot, block time (same handler's index, keyed by the node's slot), position and payload (same handler's frame getter) all come from that one node. " +
 		"Not decided: the index lookups themselves (C03, C10), payload reassembly (C14), encodings, which epochs are loaded."
 	c02Routing(r)
 	c02EpochConstants(r)
@@ -28,10 +28,12 @@ func C02(r *core.Report) {
 	c02PositionOrder(r)
 	c02Blockhash(r)
 	c14NoPooledAliasAs(r, "C02.R5")
+	c02TransactionAnswer(r)
 	r.Floor("C02.R1", 10)
 	r.Floor("C02.R2", 6)
 	r.Floor("C02.R3", 4)
 	r.Floor("C02.R4", 4)
+	r.Floor("C02.R6", 14)
 }
 
 func stripConvs(info *types.Info, e ast.Expr) ast.Expr {
@@ -749,4 +751,142 @@ func responseSortedByPosition(p *core.Prog, f *core.Func) bool {
 		}
 	}
 	return false
+}
+
+// c02TransactionAnswer (C02.R6): in both getTransaction handlers the epoch is the one the signature search returned for
+// the very signature that is then looked up, and slot, block time, position and payload of the answer are all taken
+// from the transaction node fetched from that epoch's handler (block time through the same handler's index, keyed by the
+// node's slot; payload frames through the same handler's frame getter).
+func c02TransactionAnswer(r *core.Report) {
+	const rule = "C02.R6"
+	p := r.Prog
+	for _, key := range []string{"main.(*MultiEpoch).handleGetTransaction", "main.(*MultiEpoch).GetTransaction"} {
+		f := r.Anchor(rule, key)
+		if f == nil {
+			continue
+		}
+		info := f.Pkg.TypesInfo
+		var sigObj, epochObj, handler, node types.Object
+		idx := map[types.Object]bool{}
+		ast.Inspect(f.Body, func(n ast.Node) bool {
+			as, ok := n.(*ast.AssignStmt)
+			if !ok || len(as.Rhs) != 1 {
+				return true
+			}
+			c, ok := core.Unparen(as.Rhs[0]).(*ast.CallExpr)
+			if !ok {
+				return true
+			}
+			switch core.CalleeName(info, c) {
+			case "main.(*MultiEpoch).findEpochNumberFromSignature":
+				if len(c.Args) == 2 && len(as.Lhs) == 2 {
+					sigObj, epochObj = core.ObjOf(info, c.Args[1]), core.ObjOf(info, as.Lhs[0])
+				}
+			case "main.(*MultiEpoch).GetEpoch":
+				if len(c.Args) == 1 && len(as.Lhs) == 2 && epochObj != nil && core.ObjOf(info, stripConvs(info, c.Args[0])) == epochObj {
+					handler = core.ObjOf(info, as.Lhs[0])
+				}
+			case "main.(*Epoch).GetTransaction":
+				if sel, ok := core.Unparen(c.Fun).(*ast.SelectorExpr); ok && handler != nil && core.ObjOf(info, sel.X) == handler && len(c.Args) == 2 && len(as.Lhs) == 3 {
+					if core.ObjOf(info, c.Args[1]) == sigObj {
+						node = core.ObjOf(info, as.Lhs[0])
+					}
+				}
+			case "main.(*Epoch).GetBlocktimeIndex":
+				if sel, ok := core.Unparen(c.Fun).(*ast.SelectorExpr); ok && handler != nil && core.ObjOf(info, sel.X) == handler && len(as.Lhs) == 1 {
+					if o := core.ObjOf(info, as.Lhs[0]); o != nil {
+						idx[o] = true
+					}
+				}
+			}
+			return true
+		})
+		if handler != nil && singleDef(f, handler) == nil {
+			r.Violation(rule, f.Key+"#handler-assigned-once", posP(r, f.Pos()), "the epoch handler variable is assigned more than once: the node, block time and frames may come from different epochs")
+		} else if handler != nil {
+			r.OK(rule, f.Key+"#handler-assigned-once", posP(r, f.Pos()), "the epoch handler is assigned exactly once")
+		}
+		r.Check(sigObj != nil && epochObj != nil && handler != nil, rule, f.Key+"#epoch-from-signature-search", posP(r, f.Pos()),
+			"the handler is the epoch returned by the signature search", "the epoch handler is not obtained from findEpochNumberFromSignature's result")
+		if !r.Check(node != nil, rule, f.Key+"#node-by-same-signature", posP(r, f.Pos()), "the node is fetched from that handler with the signature that was searched",
+			"the transaction is not fetched from the selected epoch with the searched signature") {
+			continue
+		}
+		var isNodeSlot func(e ast.Expr) bool
+		isNodeSlot = func(e ast.Expr) bool {
+			e = stripConvs(info, e)
+			if c, ok := e.(*ast.CallExpr); ok && len(c.Args) == 1 && (core.CalleeName(info, c) == "main.ptrToUint64") {
+				return isNodeSlot(c.Args[0])
+			}
+			if id, ok := e.(*ast.Ident); ok {
+				if o := info.Uses[id]; o != nil {
+					if d := singleDef(f, o); d != nil {
+						return isNodeSlot(d)
+					}
+				}
+				return false
+			}
+			sel, ok := e.(*ast.SelectorExpr)
+			return ok && sel.Sel.Name == "Slot" && core.ObjOf(info, sel.X) == node
+		}
+		// slot of the answer
+		okSlot := false
+		ast.Inspect(f.Body, func(n ast.Node) bool {
+			as, ok := n.(*ast.AssignStmt)
+			if !ok || len(as.Lhs) != 1 || len(as.Rhs) != 1 {
+				return true
+			}
+			if sel, ok := core.Unparen(as.Lhs[0]).(*ast.SelectorExpr); ok && sel.Sel.Name == "Slot" && strings.Contains(strings.ToLower(core.ExprStr(sel.X)), "resp") {
+				if isNodeSlot(as.Rhs[0]) {
+					okSlot = true
+				}
+			}
+			return true
+		})
+		r.Check(okSlot, rule, f.Key+"#slot-from-node", posP(r, f.Pos()), "the answer's slot is the node's slot", "the answer's slot is not taken from the fetched transaction node")
+		// block time: same handler's index, keyed by the node's slot
+		nGet, okGet := 0, true
+		for _, c := range core.CallsIn(f.Body, true) {
+			if core.CalleeName(info, c) != "blocktimeindex.(*Index).Get" || len(c.Args) != 1 {
+				continue
+			}
+			nGet++
+			sel, _ := core.Unparen(c.Fun).(*ast.SelectorExpr)
+			if sel == nil || !idx[core.ObjOf(info, sel.X)] || !isNodeSlot(c.Args[0]) {
+				okGet = false
+			}
+		}
+		r.Check(nGet > 0 && okGet, rule, f.Key+"#blocktime-by-node-slot", posP(r, f.Pos()), "the block time is looked up in the same epoch's index by the node's slot",
+			"the block time is not looked up in the selected epoch's index by the node's slot")
+		// payload: parse / get from the same node with the same handler's frame getter
+		nPay, okPay := 0, true
+		for _, c := range core.CallsIn(f.Body, true) {
+			nm := core.CalleeName(info, c)
+			if nm != "main.parseTransactionAndMetaFromNode" && nm != "main.getTransactionAndMetaFromNode" {
+				continue
+			}
+			nPay++
+			if len(c.Args) != 2 || core.ObjOf(info, c.Args[0]) != node {
+				okPay = false
+				continue
+			}
+			sel, ok := core.Unparen(c.Args[1]).(*ast.SelectorExpr)
+			if !ok || sel.Sel.Name != "GetDataFrameByCid" || core.ObjOf(info, sel.X) != handler {
+				okPay = false
+			}
+		}
+		r.Check(nPay > 0 && okPay, rule, f.Key+"#payload-from-node-and-handler", posP(r, f.Pos()), "the payload is decoded from the node with the same epoch's frame getter",
+			"the payload is not decoded from the fetched node with the selected epoch's GetDataFrameByCid")
+		// position
+		okPos := false
+		for _, c := range core.CallsIn(f.Body, true) {
+			if strings.HasSuffix(core.CalleeName(info, c), "Transaction).GetPositionIndex") {
+				if sel, ok := core.Unparen(c.Fun).(*ast.SelectorExpr); ok && core.ObjOf(info, sel.X) == node {
+					okPos = true
+				}
+			}
+		}
+		r.Check(okPos, rule, f.Key+"#position-from-node", posP(r, f.Pos()), "the position is read from the node", "the position is not read from the fetched node")
+	}
+	_ = p
 }
